@@ -31,7 +31,8 @@ THEOREMS = [P + t for t in (
     "guardrails_refuses_iff", "connect_iff", "guardrail_iff", "guardrail_sound", "gen_guardrails_everywhere",
     "svc_table_pinned", "node_table_pinned", "link_table_pinned", "guard_table_pinned", "no_limit_pinned", "tables_complete",
     "gen_service_properties_readable", "gen_node_required_readable", "gen_names_are_members", "gen_no_instance_limit",
-    "gen_instances_void", "validate_rejects_with_topology_of", "validate_rejects_with_topology", "validate_iff_spec_gen", "validate_counts_by_identity")]
+    "gen_instances_void", "validate_rejects_with_topology_of", "validate_rejects_with_topology", "validate_iff_spec_gen", "validate_counts_by_identity",
+    "gen_no_falsy_values", "gen_hollow_harmless", "services_full_of_valid", "falsy_value_counterexample")]
 EXHAUSTIVE = True
 TRUSTED_BASE = [
     "gen/constraints.py: dump of the three constraint tables, getter/shallow-sliver property lists, guardrail idiom, _list_nodes filter",
@@ -51,7 +52,8 @@ RULE = ("grid A: 15 service types x 23 site placements of 0..4 interfaces over <
         "patterns (8 uniform + 4 mixed); grid B: service types x 5 placements x declared x {DedicatedPort, SharedPort} x every subset of the "
         "type's constrained properties; grid C: 6 node types x site/image/management_ip/component flags; grid D: natural builds (NICs, "
         "add_facility, add_switch, port mirror, peer(), dangling and owner-less interfaces, substrate topologies); grid E: edited tables; "
-        "grid F: service type x interface kind x constructor/connect_interface x fresh/connected. quick samples A and B; thorough runs all. "
+        "grid F: service type x interface kind x constructor/connect_interface x fresh/connected; grid H: every constrained object-valued property "
+        "(ero) given as an object without content (graph reference, no payload, path without hops) - also inside grid B. quick samples A and B; thorough runs all. "
         "naming: half of A/B/D use node and interface names whose derived '<node>-<interface>' service-port names all coincide (n1, n1-x, "
         ".. with x-x-p0, x-p0, ..); D adds NIC builds with prefix-related names (n1/nic-aa vs n1-nic/aa, nic1/nic10); interfaces are "
         "counted by identity in the request line (name carried as a label) and in the oracle. "
@@ -178,6 +180,18 @@ def service_case(ty, placement, declared, kinds, props, layout=0, how="ctor", ex
     return {"exp": exp, "ov": ov, "naming": naming, "nodes": nodes, "svcs": [mksvc(ty, ifs, site=site, props=props, how=how)]}
 
 
+HOLLOW_VARIANTS = {"ero": ["ero@graph", "ero@empty", "ero@nohops"]}
+
+
+def pbase(p):
+    return p.split("@")[0]
+
+
+def abs_props(props):
+    """(properties that are set, those of them whose value is an object without content)"""
+    return sorted({pbase(p) for p in props}), sorted({pbase(p) for p in props if "@" in p})
+
+
 def constrained_props(ty):
     r = PINNED_SVC[ty]
     return [p for p in SVC_PROPS if p in r["required_properties"] or p in r["forbidden_properties"]]
@@ -218,6 +232,24 @@ def grid_B():
                             h = (n * 2654435761) >> 7
                             yield service_case(ty, pl, declared, [K] * len(pl), sub, layout=h & 1,
                                                how="connect" if n % 3 == 0 else "ctor", naming=("plain", "collide")[(h >> 1) & 1])
+                            # the same with every object-valued property given as an object without content
+                            for q in sub:
+                                for v in HOLLOW_VARIANTS.get(q, ()):
+                                    if K == "DedicatedPort" or v.endswith("graph"):
+                                        yield service_case(ty, pl, declared, [K] * len(pl), [v if x == q else x for x in sub], layout=h & 1,
+                                                           how="connect" if n % 3 == 0 else "ctor", naming=("plain", "collide")[(h >> 1) & 1])
+
+
+def grid_H():
+    """always run: every service type x every constrained object-valued property given as an object without content
+    (graph-reference ERO, ERO without payload, ERO whose path has no hops) - set, whatever its truthiness"""
+    for ty in SVC_TYPES:
+        for q in constrained_props(ty):
+            for v in HOLLOW_VARIANTS.get(q, ()):
+                props = [x for x in baseline_props(ty) if x != q] + [v]
+                for pl, how in (([0, 1], "ctor"), ([0], "connect"), ([], "ctor")):
+                    yield service_case(ty, pl, "none", ["DedicatedPort"] * len(pl), props, how=how)
+                    yield service_case(ty, pl, "first", ["SharedPort"] * len(pl), props, how=how, naming="collide")
 
 
 def grid_C():
@@ -338,7 +370,7 @@ def _imports():
     from fim.slivers.network_node import NodeType
     from fim.slivers.network_service import ServiceType, MirrorDirection, NetworkServiceSliver, ServiceConstraintRecord
     from fim.slivers.interface_info import InterfaceType
-    from fim.slivers.path_info import ERO, Path
+    from fim.slivers.path_info import ERO, Path, PathRepresentationType
     from fim.slivers.capacities_labels import Labels
     from fim.user.component import ComponentModelType
     from fim.user.link import LinkType
@@ -363,6 +395,17 @@ def prop_kwargs(F, props):
             path.set_symmetric(["10.1.1.1", "10.1.1.2"])
             e.set(payload=path)
             kw[p] = e
+        elif p == "ero@graph":
+            # an ERO given by reference to an external graph: set, but "without content" (no hop list)
+            e = F["ERO"](F["PathRepresentationType"].Graph)
+            e.set(payload="graph-7")
+            kw["ero"] = e
+        elif p == "ero@empty":
+            kw["ero"] = F["ERO"]()
+        elif p == "ero@nohops":
+            e = F["ERO"]()
+            e.set(payload=F["Path"]())
+            kw["ero"] = e
         else:
             raise Infra("unknown service property %s" % p)
     return kw
@@ -502,7 +545,7 @@ def build(case, F):
             n = case["nodes"][x[0]]
             pn = pnames[xi] if pnames else "%s-%s" % (node_name(case, x[0]), b.iface[tuple(x)].name)
             aifs.append(["p", pn, [[n["groups"][x[1]]["kinds"][x[2]], n["site"]]]])
-        b.abstract[name] = [s["ty"], s["site"], list(s["props"]), None, aifs]
+        b.abstract[name] = [s["ty"], s["site"], abs_props(s["props"])[0], None, aifs, abs_props(s["props"])[1]]
     for si, s in enumerate(case["svcs"]):
         svc, name = svcs[si], "svc%d" % si
         for xi, x in enumerate(s["extra"]):
@@ -579,7 +622,7 @@ def run_case(case):
             if case.get("xcheck"):
                 mine = [b.abstract[n] for n in order]
                 api = extract(t, order, F)
-                srt = lambda d: [x[:4] + [sorted(x[4], key=canon)] for x in d]   # the API lists interfaces in its own order
+                srt = lambda d: [x[:4] + [sorted(x[4], key=canon)] + [list(x[5]) if len(x) > 5 else []] for x in d]   # the API lists interfaces in its own order
                 if canon(srt(api)) != canon(srt(mine)):
                     return {"build_err": "abstraction differs from what the API reports: api %s harness %s" % (canon(api)[:400], canon(mine)[:400])}
                 out["xchecked"] = True
@@ -632,9 +675,20 @@ def extract(t, order, F):
                         o = None
                     ps.append([str(p.type), o.site if o is not None else None])
                 ifs.append(["p", si.name, ps])
-        props = sorted(p for p in SVC_PROPS if s.get_property(p))
-        out.append([str(s.type), s.site, props, owner.site if owner is not None else None, ifs])
+        # "set" = given a value: a non-empty string or any object, whatever that object's truthiness
+        vals = {p: s.get_property(p) for p in SVC_PROPS}
+        props = sorted(p for p, v in vals.items() if v is not None and not (isinstance(v, str) and v == ""))
+        hollow = sorted(p for p in props if _is_hollow(vals[p]))
+        out.append([str(s.type), s.site, props, owner.site if owner is not None else None, ifs, hollow])
     return out
+
+
+def _is_hollow(v):
+    """an object-valued property without content: an ERO/PathInfo that refers to a graph, has no payload or no hops"""
+    if hasattr(v, "payload") and hasattr(v, "type"):
+        pl = v.payload
+        return str(v.type) == "Graph" or pl is None or not getattr(pl, "a2z", None)
+    return False
 
 
 def run_connect(case, F):
@@ -724,7 +778,7 @@ def expected(case):
         for x in s["ifs"]:
             n = case["nodes"][x[0]]
             ifs.append((n["groups"][x[1]]["kinds"][x[2]], n["site"]))
-        services.append(("svc%d" % si, s["ty"], s["site"], set(s["props"]), ifs, s["extra"]))
+        services.append(("svc%d" % si, s["ty"], s["site"], {pbase(p) for p in s["props"]}, ifs, s["extra"]))
     peered = {}
     for si, s in enumerate(case["svcs"]):
         for x in s["extra"]:
@@ -839,7 +893,7 @@ def case_list(ctx, tag):
     EXHAUSTIVE = bool(ctx.thorough)      # the grids are enumerated completely only in the thorough tier
     """corner cases first (C, D, F), then the A/B grids (all in thorough, a seeded sample in quick), then edited tables"""
     rng = ctx.sub_rng("cases")
-    fixed = corpus_cases() + list(grid_C()) + list(grid_D()) + list(grid_F())
+    fixed = corpus_cases() + list(grid_C()) + list(grid_D()) + list(grid_F()) + list(grid_H())
     ab = list(grid_A()) + list(grid_B())
     if not ctx.thorough:
         ab = rng.sample(ab, 1100)
@@ -964,7 +1018,7 @@ def cases_for_diff(diff):
 
 
 def search(ctx, res, broken):
-    cases = list(grid_C()) + list(grid_D()) + list(grid_F()) + list(grid_A()) + list(grid_B())
+    cases = list(grid_C()) + list(grid_D()) + list(grid_F()) + list(grid_H()) + list(grid_A()) + list(grid_B())
     if not ctx.thorough:
         rng = ctx.sub_rng("search")
         cases = cases[:1200] + rng.sample(cases[1200:], 6000)
